@@ -58,9 +58,9 @@ AsciiUpper(c) == IF c >= 97 /\ c <= 122 THEN c - 32 ELSE c
 SupVerdict(o) ==
   LET f == o.f w == o.w IN
   CASE f = "clz" -> IF IsZero(A(o)) THEN "harness"         \* "Count leading zeros in x ... The input MUST NOT be zero"
-                    ELSE IF o.rn # Clz(A(o)) THEN "clz" ELSE IF o.rn2 # Clz(A(o)) THEN "clz_t" ELSE ""
+                    ELSE IF o.rn2 # Clz(A(o)) THEN "clz_t" ELSE IF o.rn # Clz(A(o)) THEN "clz" ELSE ""
     [] f = "ctz" -> IF IsZero(A(o)) THEN "harness"         \* "Count trailing zeros in x"
-                    ELSE IF o.rn # Ctz(A(o)) THEN "ctz" ELSE IF o.rn2 # Ctz(A(o)) THEN "ctz_t" ELSE ""
+                    ELSE IF o.rn2 # Ctz(A(o)) THEN "ctz_t" ELSE IF o.rn # Ctz(A(o)) THEN "ctz" ELSE ""
     [] f = "popcnt" -> IF o.rn # Popcnt(A(o)) THEN "popcnt" ELSE IF o.rn2 # Popcnt(A(o)) THEN "popcnt_t" ELSE ""   \* "count of bits set to 1"
     (* "Returns x & -x - extracts the lowest set isolated bit (like BLSI instruction)." *)
     [] f = "blsi" -> IF RV(o) = (IF IsZero(A(o)) THEN Zeros(w) ELSE Pow2(Ctz(A(o)), w)) THEN "" ELSE "blsi"
